@@ -75,13 +75,21 @@ def to_drv(s, sid, rng):
         scn["auth"] = 0                     # the 401 round trip uses one of the (fewer) tries
     if cf["dest"] == "reg" and not cf["seek"] and rng.random() < 0.4:
         scn["seek"] = 2                     # a seeker whose Seek fails: as little rewindable as a plain reader
-    if cf["loc"] == "query":
-        # the model treats every style that carries a token alike (query string, relative reference,
-        # absolute URL that moves); without faults the token free style behaves the same as well
-        faultfree = not any(st["act"].startswith(("f5", "rst")) for st in s["script"])
-        x = rng.random()
-        scn["loc"] = "query" if x < 0.4 else "rel" if x < 0.6 else "move" if x < 0.85 else \
-            "plain" if faultfree else "query"
+    # shape of the upload Location.  The model knows three styles (no token, token in the query,
+    # token in a moving path) and treats every token bearing one alike; without faults the token
+    # free style behaves the same as well.  Query spelling, reference form and a move of the
+    # session to another host change nothing in what a conforming client sends.
+    if cf["dest"] == "reg":
+        if cf["loc"] == "query":
+            faultfree = not any(st["act"].startswith(("f5", "rst")) for st in s["script"])
+            x = rng.random()
+            scn["loc"] = "query" if x < 0.45 else "move" if x < 0.8 else "plain" if faultfree else "query"
+        shapes = ["std", "semi", "pct", "plus", "multi", "digestx"]
+        if scn["loc"] != "query":
+            shapes = ["none"] + shapes
+        scn["qshape"] = "" if rng.random() < 0.35 else rng.choice(shapes)
+        scn["lform"] = "" if rng.random() < 0.35 else rng.choice(["path", "rel", "url", "mix"])
+        scn["lhost"] = 1 if rng.random() < 0.3 else 0
     if cf["decl"] == "baddig" and rng.random() < 0.5:
         scn["decl"] = "unkalg"              # well formed digest of an unavailable algorithm: same code path
     if cf["len"] == 0 and cf["decl"] in ("right", "digonly"):
